@@ -135,6 +135,17 @@ Theorem C02_connection : forall cfg first rest,
 Proof. exact connection. Qed.
 Print Assumptions C02_connection.
 
+(* The remainder loop of on_client_data (`while remainder is not None`) is modelled with fuel
+   1 + |carried buffer| + |data|.  No result depends on that amount: whatever the loop returns other than
+   OutOfFuel, it returns with any larger fuel.  (Theorems 2-4 exhibit the results explicitly: one round, no
+   remainder.  That OutOfFuel is unreachable altogether — every round returning a remainder has consumed a byte —
+   is not proved here; it was never observed by the correspondence.) *)
+Theorem C02_client_data_fuel_independent : forall cfg f st raw o,
+  on_client_data_loop f cfg st raw = o -> (forall st', o <> Raised OutOfFuel st') ->
+  forall k, on_client_data_loop (f + k) cfg st raw = o.
+Proof. exact client_loop_fuel_mono. Qed.
+Print Assumptions C02_client_data_fuel_independent.
+
 (* ===================================================================================== *)
 (* non-vacuity and refutations                                                             *)
 
@@ -202,13 +213,14 @@ Print Assumptions C02_upgrade_in_progress_refuted.
 (* ---- known finding C02-te-list-not-chunked (current code): the guard "Transfer-Encoding value is exactly
    chunked" in wf_framing is needed.  A request whose Transfer-Encoding is a coding LIST ending in chunked
    ("gzip, chunked", legal per RFC 7230 section 3.3.1) is taken to have no body: the header section is forwarded
-   at once — still announcing the chunked coding — and the body bytes are never forwarded (they stay in the
-   first request's buffer). *)
+   at once — still announcing the chunked coding — and the body bytes are never forwarded: they are handed to
+   on_client_data as if they were a further request, which ends the connection. *)
 Theorem C02_te_list_refuted :
-  exists w st, feed cfg_plain true init_state [te_list_raw] = Done false st /\ upstream_queue st = [w] /\
+  exists w st, feed cfg_plain true init_state [te_list_raw] = Done true st /\ upstream_queue st = [w] /\
     w = bs "POST / HTTP/1.1" ++ CRLF ++ bs "Host: h.example" ++ CRLF ++ bs "Transfer-Encoding: gzip, chunked" ++ CRLF ++
         bs "Via: " ++ via24 ++ CRLF ++ CRLF /\
-    buffer (h_request st) = Some (bs "3" ++ CRLF ++ bs "abc" ++ CRLF ++ bs "0" ++ CRLF ++ CRLF) /\
-    ref_parse_request w = None.
+    ref_parse_request w = None /\
+    (* the body bytes were taken for a further request: "Invalid request line", connection torn down *)
+    h_pipeline st = Some (new_parser REQUEST_PARSER).
 Proof. exact te_list_refuted. Qed.
 Print Assumptions C02_te_list_refuted.
